@@ -41,4 +41,9 @@ let () =
   (* the dependency-info glue as it was before /repo commit ba34c0a (operands verbatim as keys) *)
   register "process_depinfo_v0" (function [d] ->
       let (keys, ok) = process_depinfo_v0 (bytes_of_hex d) in
+      b2s ok ^ " " ^ field_of_list keys | _ -> "ERR args");
+  (* processn <style> <hexcwd> <hexwd> <file,file,...>: several dependency files of one command; "!" = a file that cannot be read *)
+  register "processn" (function [st; cwd; wd; fs] ->
+      let files = List.map (fun f -> if f = "!" then None else Some (bytes_of_hex f)) (String.split_on_char ',' fs) in
+      let (keys, ok) = process_discovered (style_of st) (bytes_of_hex cwd) (bytes_of_hex wd) files in
       b2s ok ^ " " ^ field_of_list keys | _ -> "ERR args")
